@@ -23,7 +23,9 @@ import (
 	"os"
 	"sort"
 	"strings"
+	"sync"
 	"sync/atomic"
+	"time"
 
 	"github.com/elastos/Elastos.ELA/common"
 	"github.com/elastos/Elastos.ELA/common/config"
@@ -128,16 +130,35 @@ func main() {
 	cands := f.params.DPoSConfiguration.CandidatesCount
 
 	// a goroutine that uses the global source all the time (schedule C)
+	// Switching it off takes the mutex, so that no draw of the hammer is still
+	// in flight afterwards (the harness itself uses the global source for the
+	// fix-equivalence oracle and must then be alone on it).
+	var hammerMu sync.Mutex
 	var hammerOn, hammerStop int32
 	hammerDone := make(chan struct{})
 	go func() {
 		defer close(hammerDone)
 		for atomic.LoadInt32(&hammerStop) == 0 {
-			if atomic.LoadInt32(&hammerOn) == 1 {
+			hammerMu.Lock()
+			on := atomic.LoadInt32(&hammerOn) == 1
+			if on {
 				rand.Intn(1000)
+			}
+			hammerMu.Unlock()
+			if !on {
+				time.Sleep(20 * time.Microsecond)
 			}
 		}
 	}()
+	setHammer := func(on bool) {
+		hammerMu.Lock()
+		if on {
+			atomic.StoreInt32(&hammerOn, 1)
+		} else {
+			atomic.StoreInt32(&hammerOn, 0)
+		}
+		hammerMu.Unlock()
+	}
 
 	type sched struct {
 		name string
@@ -202,14 +223,14 @@ func main() {
 			st.Count(fmt.Sprintf("sel:%d:%d", oseed, n), code >= 0, "getCandidateIndexAtRandom/"+strings.SplitN(s.name, " ", 2)[0])
 		}
 		// schedule C: continuous concurrent use of the global source
-		atomic.StoreInt32(&hammerOn, 1)
+		setHammer(true)
 		for r := 0; r < 20; r++ {
 			idx, err := f.arb.GetCandidateIndexAtRandomVerif(height, unclaimed, voted)
 			if c := outCode(idx, err); c != first {
 				results[fmt.Sprintf("continuous concurrent rand.Intn, repetition %d", r)] = c
 			}
 		}
-		atomic.StoreInt32(&hammerOn, 0)
+		setHammer(false)
 		st.Count(fmt.Sprintf("selc:%d:%d", oseed, n), first >= 0, "getCandidateIndexAtRandom/continuous")
 		// property oracle: one block hash, one index
 		for name, c := range results {
@@ -361,10 +382,10 @@ func main() {
 				crcs[h] = &fakeArbiter{key: pk}
 			}
 			if rep == 2 {
-				atomic.StoreInt32(&hammerOn, 1)
+				setHammer(true)
 			}
 			o, err := g.arb.GetRandomDposV2ProducersVerif(height, unclaimed, crcs)
-			atomic.StoreInt32(&hammerOn, 0)
+			setHammer(false)
 			if err != nil {
 				o = []string{"error:" + err.Error()}
 			}
